@@ -37,6 +37,16 @@ RowsInRange(col, lo, hi) ==
   LET hit(r) == \E i \in 1..Len(col[r]) : lo <= col[r][i] /\ col[r][i] <= hi
   IN SelectSeq([r \in 1..Len(col) |-> r - 1], LAMBDA x : hit(x + 1))
 
+\* ---- format switches of the columnar crate: values at which a writer and a reader must take the same branch.
+\* The generator (Gen_Columns) emits cases at threshold - 1, threshold, threshold + 1 of each.
+OptionalBlockRows == 65536        \* rows per block of the optional (null) index
+DenseBlockThreshold == 5120       \* a block with fewer non-null rows is written sparse (sorted u16), otherwise dense
+OptionalBlockVariant(nonNull) == IF nonNull < DenseBlockThreshold THEN "sparse" ELSE "dense"
+DenseMiniBlockRows == 64          \* a dense block is 1,024 mini blocks of 64 rows (bitvec + rank)
+BlockwiseLinearRows == 512        \* values per block of the block-wise linear codec
+BitpackFastWidth == 32            \* widths up to 32 bits use the u32 fast path of range lookups: bounds clamp at 2^32 - 1
+Around(t) == {t - 1, t, t + 1}
+
 \* ---- numerical coercion of a freshly written column: the first of i64, u64, f64 that
 \* represents all values.  classes: "neg" (< 0), "small" (0 .. i64::MAX), "big" (> i64::MAX), "float"
 CoercedType(classes) ==
